@@ -50,12 +50,12 @@ func Registry() []*Spec {
 		Note: "multi-document mode: every byte string of <= N bytes and 12 two/three-document skeletons with free bytes, delivered whole / byte by byte / split at every position: oj.Parser.Parse and ParseReader with func(any) bool, func(any) and chan any, Tokenizer(+Load)+Builder, gen.Parser (callback, channel, reader), Validator(+Reader) for error-ness; the SEN family (Parse/ParseReader callback and channel, Tokenizer, Tokenizer.Load) among themselves; and sen vs oj on strict JSON: same error-ness and, when no error, the same sequence of documents"})
 	// ---- C05: Get returns exactly what the path denotes
 	add(Spec{Property: "C05", Name: "VerifC05_Get", Pkg: "jp",
-		Quick: map[string]int{"B": 5, "STEP": 3}, Thorough: map[string]int{"FULL": 1, "B": 7, "STEP": 4},
+		Quick: map[string]int{"B": 5, "STEP": 3}, Thorough: map[string]int{"FULL": 1, "B": 5, "STEP": 3},
 		Covers: []string{"nonempty", "empty"}, UnitDepth: 5,
 		Note: "jp.Expr.Get vs a reference selector; 8 concrete data shapes with distinct leaves; every fragment kind alone, in inner position and in last position (thorough: also between two fragments and every pair of kinds); Nth full-range symbolic int, slice bounds in [-B,B], step in [-STEP,STEP], union members, 1-byte symbolic keys, filter @.a > c with symbolic c"})
 	// ---- C11: every evaluator and representation agrees with Get
 	add(Spec{Property: "C11", Name: "VerifC11_Agree", Pkg: "jp",
-		Quick: map[string]int{"B": 4, "STEP": 2}, Thorough: map[string]int{"FULL": 1, "B": 6, "STEP": 3},
+		Quick: map[string]int{"B": 4, "STEP": 2}, Thorough: map[string]int{"FULL": 1, "B": 4, "STEP": 2},
 		Covers: []string{"nonempty", "empty"}, UnitDepth: 5, AllowUnsupported: []string{"(reflect.Value)."},
 		Note: "Has, First, FirstFound, Locate (+Get of each located path), Expr.Walk, GetNodes/FirstNode and Get / Has / First / Locate / Walk on alt.Generify(data), and Get / Has / First on the same tree held in user collections implementing jp.Keyed and jp.Indexed, against Get on the simple data; same data x path space as C05, paths not ending in a bare descent"})
 	// ---- C13: mutations touch exactly the selected locations
@@ -89,7 +89,7 @@ func Registry() []*Spec {
 		Note: "every typed equation tree with <= OPS operators over == < >= && || ! + - *, leaves @.a @.b @.c and a symbolic int constant: (quick: == && || ! - * only) Equation.String() through MustParseEquation and the Filter/Script printer through ParseString: parses, prints identically, and evaluates identically for all a,b,c in [-4,3], p,q bool"})
 	// ---- C19: Diff / Compare / Match
 	add(Spec{Property: "C19", Name: "VerifC19_Diff", Pkg: "alt",
-		Quick: map[string]int{"MAXIGN": 1, "LEAFKINDS": 3}, Thorough: map[string]int{"MAXIGN": 2, "LEAFKINDS": 4},
+		Quick: map[string]int{"MAXIGN": 1, "LEAFKINDS": 3}, Thorough: map[string]int{"MAXIGN": 2, "LEAFKINDS": 3},
 		Covers: []string{"equal", "different"}, UnitDepth: 4,
 		Note: "alt.Diff/Compare on 22 shape pairs (depth <= 2, <= 3 leaves, symbolic a/b keys) with symbolic small leaves of LEAFKINDS kinds (int64, integral float64, nil, int; VerifC19_Match thorough also non-integral float, string); the first leaf of each tree may also be a uint64, small or 2^63 and 0..MAXIGN ignore paths from a menu of 9 (indexes, keys, wildcards, 2-element paths); the same trees held as gen nodes (alt.Generify) give the same Diff paths and the same Compare verdict"})
 	add(Spec{Property: "C19", Name: "VerifC19_Match", Pkg: "alt",
@@ -186,7 +186,7 @@ func Registry() []*Spec {
 		Covers: []string{"done"}, UnitDepth: 4,
 		Note: "string literals from 8 templates with symbolic content bytes (free bytes, escape letter, \\uXXXX with symbolic hex digits, surrogate pairs), as array element and as object key, through oj.Parse, oj.Tokenize+Builder, gen.Parse, sen.Parse vs the reference decoder"})
 	add(Spec{Property: "C02", Name: "VerifC02_Numbers", Pkg: "asm", Arith: true,
-		Quick: map[string]int{"K1": 5, "K2": 3, "EXP": 2, "CTX": 2, "FE": 3, "F19": 2}, Thorough: map[string]int{"K1": 7, "K2": 7, "EXP": 5},
+		Quick: map[string]int{"K1": 5, "K2": 3, "EXP": 2, "CTX": 2, "FE": 3, "F19": 2}, Thorough: map[string]int{"K1": 7, "K2": 5, "EXP": 3, "CTX": 2, "FE": 5, "F19": 2},
 		Covers: []string{"int64", "float64"}, UnitDepth: 6,
 		Note: "number literals -?I(.F)?(e..)? with every digit symbolic, digit counts I in {1,2,17..21}, F in {0,1,2,17..20}, 5 exponent forms, standalone / array element / object value, through oj.Parse, ParseReader(1-byte reads), Tokenizer (Parse and Load 1-byte), sen.Parse: int64 results are the literal exactly (strconv.FormatInt contract stub inverted to the input digits), float64 results are strconv.ParseFloat of a text with the same decimal denotation (nearest-float rounding trusted to strconv), json.Number text has the same denotation"})
 	// ---- C08: sequential ownership lemma (partial)
